@@ -21,6 +21,10 @@ list_paths = econprops.list_paths
 simplifiers = econprops.simplifiers
 
 
+def valid(case):
+    return True if case.get('misuse') else econprops.valid_program(case)
+
+
 def generate(seed, tier):
     S = core.Streams(seed)
     fam = S['swarm'].choice(['multi_currency', 'multi_currency', 'multi_currency_supply', 'gold'])
